@@ -310,11 +310,11 @@ Proof.
     rewrite F1, F2, F7. destruct (F9 CI) as (Q & _). simpl in Q. rewrite Q. rewrite Hw.
     rewrite (signal_CI_readable _ _ _ Hsig) by (intros Hs; apply Hsock; exact Hs). lia.
   - (* StartInternalThread, the thread created *)
-    assert (u = 0) by (unfold upc_ok in Hup; rewrite El in Hup; simpl in Hup; destruct k; [exact Hup | contradiction]). subst u.
+    assert (u = 0) by (unfold upc_ok in Hup; simpl in Hup; destruct k; [exact Hup | contradiction]). subst u.
     inversion Hx; subst; clear Hx. split; [exact Hl|].
     rewrite Hw, Hr. simpl. rewrite El. simpl. lia.
   - (* ... about to look at the queue *)
-    assert (u = 0) by (unfold upc_ok in Hup; rewrite El in Hup; simpl in Hup; destruct k; [exact Hup | contradiction]). subst u.
+    assert (u = 0) by (unfold upc_ok in Hup; simpl in Hup; destruct k; [exact Hup | contradiction]). subst u.
     inversion Hx; subst; clear Hx. split; [exact Hl|].
     rewrite Hw, Hr. simpl. rewrite El. simpl.
     destruct (c_q (g_ci (s_g s))); [contradiction | simpl; lia].
@@ -358,4 +358,153 @@ Proof.
     + eapply (IH (mu s')); eauto. lia.
 Qed.
 
+(* ---------- what the helper steps preserve ---------- *)
+
+(* a NULL Message is queued for the thread, or it has taken one and is on its way out, or it has finished *)
+Definition null_seen (s : sys) : Prop :=
+  In None (c_q (g_ci (s_g s))) \/ (g_ist (s_g s) = ILive /\ exiting (l_pc (g_il (s_g s))) = true) \/ g_ist (s_g s) = IExited.
+
+(* a signaller's step does not touch the internal thread's queue, histories or place *)
+Lemma signaller_keeps : forall s t g' l' e, wf smode emode s ->
+  is_pend_i (l_pc (s_l s t)) = true -> Step CRun (s_g s) (s_l s t) g' l' e ->
+  c_q (g_ci g') = c_q (g_ci (s_g s)) /\ c_sent (g_ci g') = c_sent (g_ci (s_g s)) /\
+  g_ist g' = g_ist (s_g s) /\ g_il g' = g_il (s_g s).
+Proof.
+  intros s t g' l' e W0 Pt Hx.
+  destruct (s_l s t) as [p k] eqn:El. simpl in Pt.
+  destruct p; try discriminate; inversion Hx; subst; clear Hx; auto; try discriminate.
+  all: match goal with Hs : signal _ _ = _ |- _ => apply signal_frame in Hs;
+         destruct Hs as (_ & _ & _ & _ & _ & F6 & F7 & _ & F9 & _); destruct (F9 CI) as (Q1 & Q2 & _); simpl in Q1, Q2; auto end.
+Qed.
+
+Lemma helper_keeps_null_seen : forall s lab s' ev, wf smode emode s -> null_seen s -> helper s lab ->
+  sys_step s lab = Some (s', ev) -> null_seen s'.
+Proof.
+  intros s lab s' ev W0 G Hh H.
+  destruct Hh as [-> | (t & -> & Pt)]; simpl in H.
+  - (* the internal thread *)
+    destruct (g_ist (s_g s)) eqn:Hl; try discriminate.
+    destruct (step (CRun) (s_g s) (g_il (s_g s))) as [[[g' l'] e']|] eqn:Hst; [|discriminate]. inv H.
+    apply step_spec in Hst.
+    pose proof (wf_ipc _ _ _ W0 Hl) as Hi.
+    unfold null_seen in *. simpl.
+    assert (G' : In None (c_q (g_ci (s_g s))) \/ exiting (l_pc (g_il (s_g s))) = true).
+    { destruct G as [A | [[_ B] | C]]; auto. congruence. }
+    clear G. destruct (g_il (s_g s)) as [p k] eqn:El. simpl in G'.
+    inversion Hst; subst; clear Hst; unfold ipc_ok in Hi; simpl in Hi; try contradiction;
+      try (destruct G' as [A | B]; [left; exact A | simpl in B; try discriminate]; fail).
+    all: try (destruct x; simpl in Hi; try contradiction).
+    all: try (destruct G' as [A | B]; [left; simpl; exact A | simpl in B; try discriminate]; fail).
+    + destruct G' as [A | B]; [|simpl in B; discriminate]. left.
+      match goal with Hs : signal _ _ = _ |- _ => apply signal_frame in Hs; destruct Hs as (_&_&_&_&_&_&_&_&F9&_) end.
+      destruct (F9 CI) as (Q & _). simpl in Q. rewrite Q. exact A.
+    + destruct G' as [A | B]; [|simpl in B; discriminate]. left.
+      pose proof (absorb_frame absorb_n CI (s_g s)) as F. simpl in F. destruct F as (_&_&_&_&_&_&_&_&F9&_).
+      destruct (F9 CI) as (Q & _). simpl in Q. rewrite Q. exact A.
+    + destruct G' as [A | B]; [|simpl in B; discriminate].
+      match goal with Hq : c_q _ = _ :: _ |- _ => simpl in Hq; rewrite Hq in A end.
+      destruct A as [-> | A]; [right; left; split; [exact Hl | reflexivity] | left; simpl; exact A].
+    + destruct G' as [A | B]; [left; exact A|]. simpl in B. destruct m; try discriminate.
+      destruct k as [|[] [|? ?]]; try contradiction.
+      match goal with Hr : ret _ _ _ _ = _ |- _ => simpl in Hr; inv Hr end.
+      right. left. split; [exact Hl | reflexivity].
+    + destruct G' as [A | B]; [|simpl in B; discriminate]. left.
+      match goal with Hs : signal _ _ = _ |- _ => apply signal_frame in Hs; destruct Hs as (_&_&_&_&_&_&_&_&F9&_) end.
+      destruct (F9 CI) as (Q & _). simpl in Q. rewrite Q. exact A.
+    + right. right. reflexivity.
+  - (* a signaller *)
+    destruct (step CRun (s_g s) (s_l s t)) as [[[g' l'] e']|] eqn:Hst; [|discriminate]. inv H.
+    apply step_spec in Hst.
+    destruct (signaller_keeps s t g' l' _ W0 Pt Hst) as (Q & _ & I1 & I2).
+    unfold null_seen in *. simpl. rewrite Q, I1, I2. exact G.
+Qed.
+
+Lemma canreach_carry : forall (Inv : sys -> Prop),
+  (forall s lab s' ev, R s -> Inv s -> helper s lab -> sys_step s lab = Some (s', ev) -> Inv s') ->
+  forall (P : sys -> Prop) s, R s -> Inv s -> canreach (fun x => R x /\ P x) s -> canreach (fun x => R x /\ P x /\ Inv x) s.
+Proof.
+  intros Inv Hpres P s Rs Is C. revert Rs Is. induction C; intros Rs Is.
+  - apply cr_here. tauto.
+  - assert (Rs' : R s') by (eapply reach_step; eauto; reflexivity).
+    eapply cr_step; eauto.
+Qed.
+
+Lemma exiting_looks : forall evd p, exiting p = true -> will_look evd p = true.
+Proof. intros evd p H. destruct p; try discriminate; reflexivity. Qed.
+
+(* Shutdown can always complete: once a NULL Message is queued for a live internal thread (or it has already taken
+   one), there is a continuation -- steps of the internal thread and of threads that owe it a signal only -- at whose
+   end the thread has finished, so that WaitForInternalThreadToExit returns. *)
+Theorem shutdown_can_complete : forall s, R s -> g_ist (s_g s) = ILive -> null_seen s ->
+  canreach (fun s' => R s' /\ g_ist (s_g s') = IExited) s.
+Proof.
+  intros s Rs Hl G.
+  pose proof (can_drain s Rs Hl) as C.
+  apply (canreach_carry null_seen) in C; auto.
+  - eapply canreach_weaken; [|exact C]. intros x (Rx & D & Gx). split; [exact Rx|].
+    destruct D as [E | (Lx & Qx & Wx)]; [exact E|]. exfalso.
+    destruct Gx as [A | [[_ B] | Cx]].
+    + rewrite Qx in A. contradiction.
+    + rewrite (exiting_looks _ _ B) in Wx. discriminate.
+    + congruence.
+  - intros x lab x' ev Rx Gx Hh Hs. eapply helper_keeps_null_seen; eauto.
+    eapply reachable_wf; eauto.
+Qed.
+
+(* helper steps never append to the internal thread's queue *)
+Lemma helper_keeps_sent : forall s lab s' ev, wf smode emode s -> helper s lab -> sys_step s lab = Some (s', ev) ->
+  c_sent (g_ci (s_g s')) = c_sent (g_ci (s_g s)).
+Proof.
+  intros s lab s' ev W0 Hh H.
+  destruct Hh as [-> | (t & -> & Pt)]; simpl in H.
+  - destruct (g_ist (s_g s)) eqn:Hl; try discriminate.
+    destruct (step (CRun) (s_g s) (g_il (s_g s))) as [[[g' l'] e']|] eqn:Hst; [|discriminate]. inv H.
+    apply step_spec in Hst. pose proof (wf_ipc _ _ _ W0 Hl) as Hi. simpl.
+    destruct (g_il (s_g s)) as [p k] eqn:El.
+    inversion Hst; subst; clear Hst; unfold ipc_ok in Hi; simpl in Hi; try contradiction; auto;
+      try (match goal with Hs : signal _ _ = _ |- _ => apply signal_frame in Hs; destruct Hs as (_&_&_&_&_&_&_&_&F9&_);
+             destruct (F9 CI) as (_ & Q & _); simpl in Q; exact Q end);
+      try (destruct x; simpl in Hi; try contradiction; try (destruct m; contradiction); reflexivity).
+    + pose proof (absorb_frame absorb_n x (s_g s)) as F. simpl in F. destruct F as (_&_&_&_&_&_&_&_&F9&_).
+      destruct (F9 CI) as (_ & Q & _). simpl in Q. exact Q.
+    + unfold exited. simpl. destruct (g_sockets (s_g s)); reflexivity.
+  - destruct (step CRun (s_g s) (s_l s t)) as [[[g' l'] e']|] eqn:Hst; [|discriminate]. inv H.
+    apply step_spec in Hst.
+    destruct (signaller_keeps s t g' l' _ W0 Pt Hst) as (_ & Q & _). simpl. exact Q.
+Qed.
+
+(* Every queued Message can be received: there is a continuation of helper steps during which the internal thread
+   receives, in order, the Messages queued for it now -- all of them, unless it finishes first (a NULL Message, or its
+   MessageReceivedFromOwner asks to leave), in which case it has received a prefix. *)
+Theorem queued_can_be_received : forall s, R s -> g_ist (s_g s) = ILive ->
+  canreach (fun s' => R s' /\ exists got,
+              c_rcvd (g_ci (s_g s')) = c_rcvd (g_ci (s_g s)) ++ got /\
+              got ++ c_q (g_ci (s_g s')) = c_q (g_ci (s_g s)) /\
+              (g_ist (s_g s') = IExited \/ c_q (g_ci (s_g s')) = [])) s.
+Proof.
+  intros s Rs Hl.
+  pose proof (can_drain s Rs Hl) as C.
+  set (Inv := fun x : sys => c_sent (g_ci (s_g x)) = c_sent (g_ci (s_g s)) /\
+                             exists b, c_rcvd (g_ci (s_g x)) = c_rcvd (g_ci (s_g s)) ++ b).
+  apply (canreach_carry Inv) in C; auto.
+  - eapply canreach_weaken; [|exact C]. intros x (Rx & D & (Sx & b & Bx)). split; [exact Rx|].
+    exists b. split; [exact Bx|].
+    pose proof (reachable_fifo _ _ _ _ _ _ _ Rs CI) as F. pose proof (reachable_fifo _ _ _ _ _ _ _ Rx CI) as F'.
+    simpl in F, F'. rewrite Sx, Bx, F in F'. rewrite <- app_assoc in F'. apply app_inv_head in F'.
+    split; [symmetry; exact F'|].
+    destruct D as [E | (_ & Qx & _)]; auto.
+  - unfold Inv. intros x lab x' ev Rx (Sx & b & Bx) Hh Hs. split.
+    + rewrite <- Sx. eapply helper_keeps_sent; eauto. eapply reachable_wf; eauto.
+    + destruct (sys_step_hist _ _ _ _ _ _ _ Hs) as [_ E]. destruct (E CI) as (a1 & b1 & _ & Eb). simpl in Eb.
+      exists (b ++ b1). rewrite Eb, Bx, app_assoc. reflexivity.
+  - unfold Inv. split; [reflexivity | exists []; rewrite app_nil_r; reflexivity].
+Qed.
+
 End Progress.
+
+Example ex_null_seen : forall n, exists s, reachable_if false n react0 any_label true false s /\
+  g_ist (s_g s) = ILive /\ null_seen s.
+Proof.
+  intros n. destruct (ex_shutdown_waiting n) as (s & Rs & _ & _ & Hl & Hq).
+  exists s. split; [exact Rs|]. split; [exact Hl|]. left. rewrite Hq. left. reflexivity.
+Qed.
